@@ -113,6 +113,7 @@ class Adam(Optimizer):
         
         self.m1 = [0 for _ in range(len(parameters))]
         self.m2 = [0 for _ in range(len(parameters))]
+        self.steps = [0 for _ in range(len(parameters))] # updates applied to each parameter
     
     def step(self):
         super().step()
@@ -120,6 +121,7 @@ class Adam(Optimizer):
             for i, p in enumerate(self.parameters):
                 if not p.requires_grad or p._grad is None: continue # frozen, or never reached by backward
                 grad = -p._grad if self.maximize else p._grad   
+                self.steps[i] += 1
                     
                 # Weight decay
                 if self.weight_decay != 0:
@@ -131,8 +133,8 @@ class Adam(Optimizer):
                 # Update biased second raw moment estimate
                 self.m2[i] = self.beta2 * self.m2[i] + (1.0 - self.beta2) * grad**2.0
                 
-                m1_corrected = self.m1[i] / (1.0 - self.beta1**self.t)
-                m2_corrected = self.m2[i] / (1.0 - self.beta2**self.t)
+                m1_corrected = self.m1[i] / (1.0 - self.beta1**self.steps[i])
+                m2_corrected = self.m2[i] / (1.0 - self.beta2**self.steps[i])
 
                 # Update the parameters using the Adam formula
                 p.data -= (self.lr * m1_corrected) / (np.sqrt(m2_corrected) + self.epsilon)
@@ -167,6 +169,7 @@ class AdamW(Optimizer):
         
         self.m1 = [0 for _ in range(len(parameters))]
         self.m2 = [0 for _ in range(len(parameters))]
+        self.steps = [0 for _ in range(len(parameters))] # updates applied to each parameter
         
     def step(self):
         super().step()
@@ -174,6 +177,7 @@ class AdamW(Optimizer):
             for i, p in enumerate(self.parameters):
                 if not p.requires_grad or p._grad is None: continue # frozen, or never reached by backward
                 grad = -p._grad if self.maximize else p._grad   
+                self.steps[i] += 1
                 
                 # Weight decay
                 p.data -= self.lr*self.weight_decay*p.data
@@ -184,8 +188,8 @@ class AdamW(Optimizer):
                 # Update biased second raw moment estimate
                 self.m2[i] = self.beta2 * self.m2[i] + (1.0 - self.beta2) * grad**2.0
                 
-                m1_corrected = self.m1[i] / (1.0 - self.beta1**self.t)
-                m2_corrected = self.m2[i] / (1.0 - self.beta2**self.t)
+                m1_corrected = self.m1[i] / (1.0 - self.beta1**self.steps[i])
+                m2_corrected = self.m2[i] / (1.0 - self.beta2**self.steps[i])
 
                 # Update the parameters using the Adam formula
                 p.data -= (self.lr * m1_corrected) / (np.sqrt(m2_corrected) + self.epsilon)
